@@ -106,6 +106,8 @@ RIEMANN_TABLE = {
     "collision_equal_states": dict(rl=1.0, ul=1.0, pl=1.0, gl=1.4, rr=1.0, ur=-1.0, pr=1.0, gr=1.4, xd0=0.5, t=0.2),
     "recession_equal_states": dict(rl=1.0, ul=-0.5, pl=1.0, gl=1.4, rr=1.0, ur=0.5, pr=1.0, gr=1.4, xd0=0.5, t=0.2),
     "moving_scr": dict(rl=0.125, ul=0.4, pl=0.1, gl=1.4, rr=1.0, ur=0.9, pr=1.0, gr=1.4, xd0=0.5, t=0.2),
+    # a double rarefaction that is NOT mirror symmetric (the package's only double rarefaction, Einfeldt, is; seeded change S-C17-1)
+    "recession_unequal_states": dict(rl=1.0, ul=-1.0, pl=1.0, gl=1.4, rr=0.5, ur=1.0, pr=1.0, gr=1.4, xd0=0.5, t=0.2),
 }
 JWL_TABLE = {
     "shyue": dict(rl=1.7, ul=0.0, pl=10.0, gl=1.25, rr=1.0, ur=0.0, pr=0.5, gr=1.25, xmin=0.0, xd0=50.0, xmax=100.0, t=12.0,
